@@ -26,14 +26,20 @@ def exp_iter_rule(ck, F):
     fr = I.call_fn.__self__.F.fn("util::exp_iter")
     I2 = H.Interp(F)  # no hooks: interpret the real function
     v = I2.call_fn("util::exp_iter", [Sc(x)])
-    ok = isinstance(v, Struct) and eq(v.fields["next_exp_x"].e, 1) and eq(v.fields["x"].e, x)
+    # the roles of the state's fields are read off the initial state (names are free): one holds 1, one holds x
+    sc_fields = {k: f for k, f in v.fields.items() if isinstance(f, Sc)} if isinstance(v, Struct) else {}
+    f_cur = [k for k, f in sc_fields.items() if eq(f.e, 1)]
+    f_x = [k for k, f in sc_fields.items() if eq(f.e, x)]
+    ok = len(sc_fields) == 2 and len(f_cur) == 1 and len(f_x) == 1
     ck.require(ok, "R01.1", "exp_iter:init", f"exp_iter(x) must start at x^0 = 1 with ratio x; got {v!r}", FX.short(fr["sp"]))
     nxt = "<util::FrExp<G> as std::iter::Iterator>::next"
     F.fn(nxt)
-    st = Struct("util::FrExp", {"x": Sc(x), "next_exp_x": Sc(sp.Symbol("cur"))})
+    if not ok:
+        return
+    st = Struct(v.path, {f_x[0]: Sc(x), f_cur[0]: Sc(sp.Symbol("cur"))})
     box = [st]
     r = I2.call_fn(nxt, [Ref(lambda: box[0], lambda nv: box.__setitem__(0, nv), "self")])
-    ok2 = isinstance(r, Enum) and r.variant == "Some" and eq(r.payload[0].e, sp.Symbol("cur")) and eq(box[0].fields["next_exp_x"].e, sp.Symbol("cur") * x)
+    ok2 = isinstance(r, Enum) and r.variant == "Some" and eq(r.payload[0].e, sp.Symbol("cur")) and eq(box[0].fields[f_cur[0]].e, sp.Symbol("cur") * x) and eq(box[0].fields[f_x[0]].e, x)
     ck.require(ok2, "R01.1", "exp_iter:next", f"FrExp::next must yield the current power and multiply the state by x; got {r!r}, state {box[0].fields}", FX.short(F.fn(nxt)["sp"]))
     ck.fn("util::exp_iter")
     ck.fn(nxt)
